@@ -856,6 +856,13 @@ def rt_cases(prop):
             sp = RT.gen_tree(r2)
             if i % 2:
                 sp['salt'] = str(r2.randrange(1000))       # another set iteration order
+            flat = all(m['type'] == 'job' for m in sp['members'])
+            if i % 4 == 3 and prop not in ('C06', 'C10', 'C13') and (prop != 'C14' or flat):
+                # the same tree run a second time ("in any run of any scheduler"); the second run is judged.
+                # Not for C13 (co_shutdown is sent once in a scheduler's life: "a later explicit shutdown() sends
+                # nothing more"); for C14 only without nesting (the jobs of a nested scheduler keep the state of
+                # the previous run until the nested run begins: what the API says then is about that earlier run)
+                sp['rerun'] = True
             if prop == 'C06':
                 sp2, flipped = RT.c06_pair(sp, r2)
                 if flipped:
